@@ -304,10 +304,23 @@ def run(chk):
     wrecs = [r for r in walk.printed if isinstance(r, dict) and "exp" in r]
     if len(wrecs) < 100:
         raise vlib.Inconclusive("too few random configuration points: %d" % len(wrecs))
+    # further base points (PSK suites, DTLS 1.3, client certificate + SRTP + ALPN): every 1/2-way combination around each
+    seen_a = {json.dumps(r["a"]) for r in recs}
+    bases = []
+    for bp in (2, 3, 4):
+        g = vlib.tlc_generate(MODULE, "Negotiation.pairs.gen.base%d.cfg" % bp, timeout=600)
+        chk.add_tlc("pairs.base%d" % bp, g)
+        rs = [r for r in g.printed if isinstance(r, dict) and "exp" in r and json.dumps(r["a"]) not in seen_a]
+        if len(rs) < 500:
+            raise vlib.Inconclusive("too few expectation records around base point %d: %d" % (bp, len(rs)))
+        seen_a |= {json.dumps(r["a"]) for r in rs}
+        if chk.quick:
+            rs = rng.sample(rs, min(len(rs), 1200))
+        bases.append(("base%d-2way" % bp, rs))
     binary = vlib.build("root")
     cid = 0
     groups = []
-    for label, rs in (("1-2way", low), ("3way-versions", ver3), ("3way", rest), ("random", wrecs)):
+    for label, rs in [("1-2way", low), ("3way-versions", ver3), ("3way", rest), ("random", wrecs)] + bases:
         cases = []
         for r in rs:
             cases.append(to_case(r, rng, cid))
